@@ -1,0 +1,9 @@
+//go:build verif
+// +build verif
+
+package sm4
+
+// Hooks for the verification harness (build tag "verif" only).
+
+// VerifMultiplication exposes the GF(2^128) multiplication used by GHASH.
+func VerifMultiplication(x, y []byte) []byte { return multiplication(x, y) }
